@@ -11,6 +11,7 @@ pub mod c08_order1;
 pub mod c08_aac;
 pub mod c16;
 pub mod c16_fmtmodel;
+pub mod c16_more2;
 pub mod c12;
 pub mod c12_more;
 pub mod c20;
